@@ -516,9 +516,15 @@ package binary
 //@   let v = int32(be32at(rin(sw.reader), rpos(sw.reader)))
 //@   let n = int64(int32(be32at(rin(sw.reader), rpos(sw.reader) + 4)))
 //@   modifies sw.buffer, rpos(sw.reader)
-//@   ensures(strict) err == nil && v <= 0 ==> uint32(v) & 4294901760 == 2147549184 && result.Type == int8(v) && len(result.Name) == n && n >= 0 && result.SeqID == int32(be32at(rin(sw.reader), p0 + 8 + n)) && rpos(sw.reader) == p0 + 12 + n
+//@   ensures(strictver) err == nil && v <= 0 ==> uint32(v) & 4294901760 == 2147549184 && result.Type == int8(v)
+//@   ensures(strictlen) err == nil && v <= 0 ==> len(result.Name) == n && n >= 0
+//@   ensures(strictseq) err == nil && v <= 0 ==> result.SeqID == int32(be32at(rin(sw.reader), p0 + 8 + n))
+//@   ensures(strictpos) err == nil && v <= 0 ==> rpos(sw.reader) == p0 + 12 + n
 //@   ensures(strictname) err == nil && v <= 0 ==> forall(k, 0, len(result.Name), result.Name[k] == rin(sw.reader)[p0 + 8 + k])
-//@   ensures(legacy) err == nil && v > 0 ==> len(result.Name) == int64(v) && result.Type == int8(rin(sw.reader)[p0 + 4 + int64(v)]) && result.SeqID == int32(be32at(rin(sw.reader), p0 + 5 + int64(v))) && rpos(sw.reader) == p0 + 9 + int64(v)
+//@   ensures(legacylen) err == nil && v > 0 ==> len(result.Name) == int64(v)
+//@   ensures(legacytype) err == nil && v > 0 ==> result.Type == int8(rin(sw.reader)[p0 + 4 + int64(v)])
+//@   ensures(legacyseq) err == nil && v > 0 ==> result.SeqID == int32(be32at(rin(sw.reader), p0 + 5 + int64(v)))
+//@   ensures(legacypos) err == nil && v > 0 ==> rpos(sw.reader) == p0 + 9 + int64(v)
 //@   ensures(legacyname) err == nil && v > 0 ==> forall(k, 0, len(result.Name), result.Name[k] == rin(sw.reader)[p0 + 4 + k])
 //@   ensures(mono) rpos(sw.reader) >= p0
 //@   ensures(valid) validSR(sw)
